@@ -250,3 +250,34 @@ def depends_on_var(o, term, name, depth=0):
             if len(s) > 2 and depth < 3 and depends_on_var(o, o.init_of(s[2]), name, depth + 1):
                 return True
     return False
+
+
+def ok_return_blocks(body, o):
+    """blocks in which the function's success value comes into being: `_0 = Ok(..)` in the body itself, or — when the function
+    ends with `helper(..).await` / `helper(..)` and simply returns the helper's result — the `Ok(..)` of the spliced helper that
+    flows into `_0`. Rules about "every successful return has passed X" look at these blocks, so that moving the tail of a function
+    into a helper does not hide its success exits."""
+    out = []
+
+    def collect(t, fallback, depth=0):
+        if not isinstance(t, tuple) or not t or depth > 6:
+            return
+        if t[0] == "agg" and len(t) > 2 and t[2] == "Ok":
+            out.append(t[4] if len(t) > 4 and isinstance(t[4], int) else fallback)
+        elif t[0] == "phi":
+            for alt in t[1]:
+                collect(alt, fallback, depth + 1)
+
+    for kind, bi, si, rv in body.defs().get(0, []):
+        if kind != "assign":
+            continue
+        if rv["r"] == "aggregate":
+            if rv["kind"].get("variant") == "Ok":
+                out.append(bi)
+        elif rv["r"] == "use" and rv["op"].get("o") in ("move", "copy"):
+            collect(o.of_operand(rv["op"]), bi)
+    res = []
+    for b in out:
+        if b not in res:
+            res.append(b)
+    return res
